@@ -49,6 +49,7 @@ type c08Res struct {
 	Err   string
 	Panic string
 	Raw   []byte // the very slice sonic returned (kept to see whether later calls touch it)
+	Inj   bool   // a callback of this call was made to fail (injected fault)
 }
 
 func (r c08Res) String() string {
@@ -207,6 +208,10 @@ func runC08(c *Ctx) Result {
 	if t.Draw(simrt.Knobs, 4) == 0 {
 		panicPct = 4
 	}
+	failPct := 0
+	if t.Draw(simrt.Knobs, 3) == 0 {
+		failPct = []int{5, 25}[t.Draw(simrt.Knobs, 2)]
+	}
 
 	nTypes := 1 + g.d(4)
 	types := make([]reflect.Type, nTypes)
@@ -277,18 +282,32 @@ func runC08(c *Ctx) Result {
 	}
 
 	got := make([][]c08Res, nClients)
+	failHit := make([]int, nClients)
 	sim := simrt.NewSim(t, 200000)
 	if panicPct > 0 {
 		cbPanic = func() bool { return simrt.Active() && t.Draw(simrt.Faults, 100) < panicPct }
 	}
-	defer func() { cbPanic = func() bool { return false } }()
+	if failPct > 0 {
+		cbFail = func() bool {
+			if simrt.Active() && t.Draw(simrt.Faults, 100) < failPct {
+				if me := simrt.Me(); me >= 0 && me < len(failHit) {
+					failHit[me]++
+				}
+				return true
+			}
+			return false
+		}
+	}
+	defer func() { cbPanic, cbFail = func() bool { return false }, func() bool { return false } }()
 	for i := 0; i < nClients; i++ {
 		i := i
 		got[i] = make([]c08Res, len(calls[i]))
 		sim.Go(func() {
 			for j := range calls[i] {
 				simrt.Yield(-100)
+				h0 := failHit[i]
 				got[i][j] = c08Exec(types, &calls[i][j])
+				got[i][j].Inj = failHit[i] != h0
 			}
 		})
 	}
@@ -296,7 +315,7 @@ func runC08(c *Ctx) Result {
 	atomic.StoreUint32(&cbTraceFail, 0)
 	sim.Run()
 	cbSentinel = ""
-	cbPanic = func() bool { return false }
+	cbPanic, cbFail = func() bool { return false }, func() bool { return false }
 	c.add("sched_steps", sim.Steps)
 	c.add("sched_switches", sim.Switches)
 	c.add("pool_gets", simrt.PoolStats.Gets)
@@ -322,7 +341,7 @@ func runC08(c *Ctx) Result {
 	for _, ty := range types {
 		typeS = append(typeS, clip(ty.String(), 120))
 	}
-	sample := map[string]interface{}{"types": typeS, "calls": callS, "cache_cap_dec": capD, "cache_cap_enc": capE, "steps": sim.Steps, "switches": sim.Switches, "strategy": sim.Strategy, "panic_pct": panicPct}
+	sample := map[string]interface{}{"types": typeS, "calls": callS, "cache_cap_dec": capD, "cache_cap_enc": capE, "steps": sim.Steps, "switches": sim.Switches, "strategy": sim.Strategy, "panic_pct": panicPct, "callback_fail_pct": failPct}
 	res := Result{Sample: sample, Nontrivial: sim.Switches > nClients}
 	fail := func(sig, detail string, fatal bool) Result {
 		res.Sig = "C08:" + sig
@@ -366,6 +385,12 @@ func runC08(c *Ctx) Result {
 			g := got[i][j]
 			if g.Panic != "" {
 				c.inc("fault_callback_panic")
+				continue
+			}
+			if g.Inj {
+				// whatever the codec makes of the callback's error (it may wrap or replace it),
+				// this call's own result is not comparable; the OTHER calls still are
+				c.inc("fault_callback_error")
 				continue
 			}
 			solo := c08Exec(types, cl)
